@@ -21,7 +21,8 @@ import numpy as np
 from ..common import run_driver, q2s, seed_rng
 from ..exact import enc_list, enc_rule1, enc_scheme, rand_frac, rand_rule
 
-PROP_MODS = ['Stbem.Props.C14', 'Stbem.Props.C14Integral', 'Stbem.Props.QuadTie', 'Stbem.Props.NormsTie']
+PROP_MODS = ['Stbem.Props.C14', 'Stbem.Props.C14Integral', 'Stbem.Props.C14Integral14', 'Stbem.Props.QuadTie', 'Stbem.Props.NormsTie',
+             'Stbem.Props.C14Integral14Gen']
 RULE = ('correspondence: the real Slobodeckij class (constructors of the three base rules monkey-patched in the '
         'harness process to rational stand-in rules with 1-4 nodes, routed by the requested order) run on exact '
         'rationals (class Q: exact sqrt of rational squares, float constants = the rationals they denote) and compared textually with the Lean '
@@ -56,9 +57,12 @@ TRUSTED = [
     'with its size assertion) are regenerated from the source on every run (translate/quadgen.py -> Gen/QuadGen.lean) and '
     'proved equal to the hand-written model used here (Props/QuadTie.lean: gen_product2_eq, gen_integrate2_eq, '
     'gen_size_threshold, semi12pwVal_via_gen); the generated functions are run against the real classes by C15.py',
-    'classical calculus, not formalised, H^{1/4} ONLY: Duffy substitution turning the improper double integral (kernel '
-    '|x-y|^-3/2, integrand not polynomial) into 2 int_0^1 int_0^1 (.) x^-1/2 y^-1/2 dy dx; the closed forms used by the '
-    'search are computed from it by exact polynomial algebra in the harness.  For H^{1/2} nothing is trusted here any more: '
+    'classical calculus: nothing trusted any more for polynomial data.  H^{1/4}: Props/C14Integral14.lean proves semi14 = '
+    'int_0^1 int_0^1 P x^-1/2 y^-1/2 (semi14_eq_integral_ref) = h^-1/2 * 2 int_a^{a+h} int_a^t (f t - f s)^2/(t - s)^{3/2} '
+    '(semi14_eq_integral_triangle) = h^-1/2 * int_a^{a+h} int_a^{a+h} (f x - f y)^2/|x - y|^{3/2} (semi14_eq_integral_square, '
+    'semi14_exact; Fubini for the continuous kernel |t-s|^{1/2} D(t,s)^2; gen_h14_exact for the generated code) with Mathlib '
+    'interval integrals and real powers, for every rule with the moments 2/(2k+1), k <= N, 2 deg f <= N, 0 < h; the closed '
+    'forms used by the search are computed independently by exact polynomial algebra in the harness.  H^{1/2}: '
     'Props/C14Integral.lean proves semi12 = int_a^b int_a^b ((f x - f y)/(x - y))^2 dy dx (Mathlib interval integrals) for '
     'polynomial f within the exactness range (semi12_eq_integral_poly, semi12_exact; NormsTie.gen_h12_eq_integral_poly)',
     'modelled, not verified: binary64 rounding ("twelve digits") — covered by the float search only',
